@@ -1,14 +1,17 @@
 """C09 — pattern bindings: alternatives are atomic, names bind consistently.
 
-Lean: Verif/C09/{Model,Lemmas,Theorems}.lean — the matcher of pattern/match.go as a state
-machine over (State, setBindings stack), the parser's index assignment for both binding
-spellings, a functional specification with immutable environments, and the theorems
-impl_refines_spec / repeat_consistent / spellings_agree / no_panic.
+Lean: Verif/C09/{Model,Lemmas,Refine,NoPanic,Consistent,AstEq,Structural,ParserLemmas,Spelling,Theorems}.lean —
+the matcher of pattern/match.go as a state machine over (State, setBindings stack of 64-bit masks), the
+parser's index assignment for both binding spellings, a functional specification with immutable
+environments, and the theorems listed in THEOREMS.
 
-Tie X: harness/cmd/c09match runs the real pattern.Parser + pattern.Match in-process on
-generated (pattern text, Go snippet) pairs and prints ok flag + sorted State (structural dump)
-+ the Binding.idx fields (reflection) + Pattern.Bindings + Root.String(); the Lean driver parses
-the same pattern text and the serialised tree, and prints the same for the model.
+Tie X: harness/cmd/c09match runs the real pattern.Parser + pattern.Match in-process on generated
+(pattern text, Go snippet) pairs and prints ok flag + sorted State (structural dump) + the parsed
+Pattern.Root serialised structurally (Binding.idx by reflection) + Pattern.Bindings.  The Lean driver
+  - runs the model matcher AND the specification on the REAL parser's Root/Bindings and the serialised tree
+    (so the matcher tie does not depend on the parser tie),
+  - evaluates wfIdx (the hypothesis of the theorems) on the real Root/Bindings,
+  - parses the same pattern text with the model parser and compares the structure with the real Root.
 
 Oracle (evaluated on the real code's outputs):
   (a) a successful real match leaves exactly the bindings of specMatch (the specification:
@@ -27,7 +30,9 @@ MODULES = ["Verif.C09.Theorems"]
 THEOREMS = [
     "Verif.C09.impl_refines_spec",
     "Verif.C09.impl_fail_spec",
+    "Verif.C09.visible_names",
     "Verif.C09.repeat_consistent",
+    "Verif.C09.repeat_structurally_equal",
     "Verif.C09.spellings_agree",
     "Verif.C09.parse_wfIdx",
     "Verif.C09.no_panic",
@@ -636,6 +641,93 @@ def generate(ctx, seed, n_base, n_wide, tag="g"):
     return cases, hist
 
 
+# ----------------------------------------------------------------------------- repeated names over many node kinds
+# families of near-identical snippets: members of one family differ in one leaf / one element
+EXPR_FAMILIES = [
+    ["a", "b", "(a)", "((a))"], ["1", "2", "1.5", "'c'", '"s"', '"t"', "1i"],
+    ["a + b", "a - b", "a + c", "(a + b)", "a + (b)", "b + a"], ["-a", "!a", "^a", "+a", "<-a", "*a", "&a"],
+    ["a << b", "a &^ b", "a && b", "a || b", "a & b"],
+    ["f()", "f(a)", "f(a, b)", "f(a...)", "f(a, b...)", "g(a)", "f((a))"],
+    ["a.b", "a.c", "b.b", "(a).b", "a.b.c"], ["a[i]", "a[j]", "b[i]", "a[(i)]"],
+    ["a[i:j]", "a[i:j:k]", "a[:j]", "a[i:]", "a[:]", "a[:j:k]"], ["x.(T)", "x.(U)", "y.(T)", "x.(type)"],
+    ["T{}", "T{1}", "T{1, 2}", "T{k: v}", "T{k: w}", "U{}", "&T{}"],
+    ["[]int{1}", "[2]int{1}", "[...]int{1}", "[]int{}", "[]string{}", "map[K]V{}", "map[K]W{}"],
+    ["func() {}", "func(a int) {}", "func(a, b int) {}", "func(a int, b int) {}", "func(b int) {}", "func(a ...int) {}",
+     "func(int) {}", "func() int { return a }", "func() (int, error) { return a, b }", "func() (r int) { return }",
+     "func() { a++ }", "func() { a++; b++ }"],
+    ["chan int", "<-chan int", "chan<- int", "chan string", "chan (<-chan int)"],
+    ["struct{}{}", "struct{ a int }{}", "struct{ a, b int }{}", "struct{ a int; b int }{}", "struct{ a int `t` }{}",
+     "struct{ a int `u` }{}", "struct{ T }{}", "struct{ *T }{}"],
+    ["interface{}(nil)", "interface{ M() }(nil)", "interface{ M(); N() }(nil)", "interface{ T }(nil)", "interface{ ~int }(nil)",
+     "interface{ int | string }(nil)"],
+    ["g[int](a)", "g[int, string](a)", "g[string](a)", "g[int]"], ["(*T)(p)", "[]T(nil)", "map[string]int(nil)", "*T", "**T"],
+    ["func(a int) (b int)", "func(a int) (int)", "func(a int)", "func(b int)"],
+]
+STMT_FAMILIES = [
+    ["a = b", "a = c", "a := b", "a += b", "a, b = b, a", "a, b = a, b", "(a) = b"],
+    ["a++", "a--", "b++", "(a)++"], ["return", "return a", "return a, b", "return (a)", "return b"],
+    ["if a {}", "if a {} else {}", "if a := b; a {}", "if a { b++ }", "if a {} else if b {}", "if b {}"],
+    ["for {}", "for a {}", "for i := 0; i < n; i++ {}", "for i := 0; i < n; i-- {}", "for ; a; {}", "for a { break }"],
+    ["for i := range x {}", "for i, v := range x {}", "for range x {}", "for i = range x {}", "for i := range y {}"],
+    ["switch {}", "switch a {}", "switch a { case 1: }", "switch a { case 1, 2: }", "switch a { default: }",
+     "switch a { case 1: default: }", "switch a := b; a {}", "switch a { case 1: fallthrough; case 2: }"],
+    ["switch x := y.(type) {}", "switch y.(type) {}", "switch x := y.(type) { case int: }", "switch x := y.(type) { case int, string: }"],
+    ["select {}", "select { case <-c: }", "select { case c <- a: }", "select { case v := <-c: }", "select { default: }",
+     "select { case <-c: default: }"],
+    ["go f()", "defer f()", "go g()", "go f(a)", "go func() {}()"],
+    ["break", "continue", "goto L", "break L", "continue L", "break M"], ["L: a++", "M: a++", "L: b++", "a++"],
+    ["{ a++ }", "{ a++; b++ }", "{ }", "{ { a++ } }", "{ b++ }"],
+    ["var a int", "var a, b int", "var a = 1", "var a int = 1", "var b int", "var ( a int; b int )", "var a string"],
+    ["const c = 1", "const c = 2", "const c int = 1", "const ( c = iota; d )"],
+    ["type T int", "type T = int", "type T struct{}", "type U int", "type T[P any] int", "type T[P any, Q any] int"],
+    ["c <- a", "c <- b", "d <- a"], ["f(a)", "f(b)", "(f(a))", "f((a))"], [";", "a++"],
+]
+PAIR_PATTERNS_E = [
+    "(CallExpr _ [x x])", "(CallExpr _ x:x)", "(CallExpr _ [x (Binding \"y\" x)])", "(CallExpr _ [(Binding \"x\" nil) (Binding \"x\" nil)])",
+    "(Or (CallExpr _ [x x]) (CallExpr _ [_ x]))", "(CallExpr _ [(Not x) x])", "(CallExpr _ [x (Not x)])",
+    "(CallExpr _ [x (Or (Ident \"zzz\") x)])", "(CallExpr f [x x])", "(CallExpr _ (Or [x x (Ident \"zzz\")] [_ x]))",
+]
+PAIR_PATTERNS_S = [
+    "(IfStmt _ _ x x)", "(IfStmt _ _ [x] [x])", "(IfStmt _ _ x:_ x:_)", "(IfStmt _ _ x (Binding \"y\" x))",
+    "(Or (IfStmt _ _ x x) (IfStmt _ c _ x))", "(IfStmt _ _ [x] x)", "(IfStmt _ _ x [x])", "(IfStmt _ _ x (Not x))",
+    "(IfStmt _ _ [(Binding \"x\" nil)] (Or nil [x]))",
+]
+
+
+def generate_pairs(seed, n, tag="p"):
+    """`f(A, B)` / `if c { A } else { B }` against patterns that repeat a name: B is A, a transparent variant of A,
+    a member of A's family (one leaf / element differs) or unrelated; covers the comparison of matchAST over
+    every kind of go/ast node and field (strings, tokens, bools, ints, typed nil pointers, slices of every type)."""
+    rng = vlib.SplitMix(seed).fork("c09-" + tag)
+    cases = []
+    hist = {"same": 0, "family": 0, "other": 0}
+    for i in range(n):
+        stm = rng.chance(1, 2)
+        fams = STMT_FAMILIES if stm else EXPR_FAMILIES
+        fam = rng.choice(fams)
+        a = rng.choice(fam)
+        k = rng.below(10)
+        if k < 4:
+            b = a
+            if not stm and rng.chance(1, 3):
+                b = "(" + a + ")"
+            hist["same"] += 1
+        elif k < 8:
+            b = rng.choice(fam)
+            hist["family"] += 1
+        else:
+            b = rng.choice(rng.choice(fams))
+            hist["other"] += 1
+        if stm:
+            src = "if c { %s } else { %s }" % (a, b)
+            pat = rng.choice(PAIR_PATTERNS_S)
+        else:
+            src = "f(%s, %s)" % (a, b)
+            pat = rng.choice(PAIR_PATTERNS_E)
+        cases.append({"pattern": pat, "kind": "s" if stm else "e", "snippet": src, "group": None, "spelling": "-", "stream": "pairs"})
+    return cases, hist
+
+
 def tables_tie(ctx, binp):
     m = vlib.run_model(ctx, "C09", ["tables"])[0]
     f = parse_fields(m)
@@ -731,9 +823,11 @@ def run(ctx):
         return vlib.finish(ctx, "proof")
 
     corpus = load_corpus()
-    n_base, n_wide = (12000, 150) if ctx.quick else (400000, 3000)
+    n_base, n_wide, n_pairs = (12000, 150, 4000) if ctx.quick else (400000, 3000, 120000)
     cases, hist = generate(ctx, ctx.seed, n_base, n_wide)
-    allc = corpus + cases
+    pairs, phist = generate_pairs(ctx.seed, n_pairs)
+    hist["pairs"] = phist
+    allc = corpus + cases + pairs
     run_cases(ctx, binp, allc)
     fails, tie = evaluate(allc)
 
@@ -741,6 +835,7 @@ def run(ctx):
     if not any(fails.values()) and (tie or tab_diffs or not lean_ok):
         # violation search: a fresh, larger batch through the oracle
         extra, _ = generate(ctx, ctx.seed + 7919, n_base * 2, n_wide * 2, tag="s")
+        extra += generate_pairs(ctx.seed + 7919, n_pairs * 2, tag="sp")[0]
         run_cases(ctx, binp, extra)
         f2, _ = evaluate(extra)
         search = {"extra_cases": len(extra), "oracle_failures": {k: len(v) for k, v in f2.items()}}
@@ -806,15 +901,22 @@ def run(ctx):
 
 META = {
     "level": "proof",
-    "technique": "Lean 4 refinement proof: the matcher's mutable binding state with its frame stack refines a functional "
-                 "specification with immutable environments; executable correspondence with the real pattern.Parser/Match",
-    "text": "impl_refines_spec (a successful match of the state-machine model leaves exactly the bindings of the specification's "
-            "successful path), repeat_consistent, spellings_agree and no_panic are proved for all patterns and trees over the Lean "
-            "model of pattern/match.go and the index assignment of pattern/parser.go; the model is tied to the code by running the "
-            "real parser and matcher in-process on generated pattern/snippet pairs (both binding spellings, up to 66 names) and "
-            "comparing result, State, Binding.idx and Pattern.Bindings; the specification is evaluated on every real result.",
-    "note": "Trusted: Lean kernel (axioms propext/Classical.choice/Quot.sound), compiled c09driver incl. its pattern-text parser, "
-            "harness/cmd/c09match + c09ser, go/parser. Type-info nodes (Symbol, Object, Builtin, IntegerLiteral, "
-            "TrulyConstantExpression) are outside the model.",
-    "design_ref": "DESIGN.md section 5, C09; section 6 rows 9-11",
+    "technique": "Lean 4 refinement proof: the matcher's mutable binding state with its stack of 64-bit frame masks refines a "
+                 "functional specification with immutable environments; executable correspondence of the model with the real "
+                 "pattern.Parser / pattern.Match, the specification evaluated on every real result",
+    "text": "Proved for all patterns and all trees over the Lean model of pattern/match.go and of the index assignment of "
+            "pattern/parser.go (type-information-free pattern language): impl_refines_spec / impl_fail_spec (a successful match "
+            "leaves exactly the bindings of the specification's successful path: Or = first alternative succeeding from the "
+            "incoming environment, Not = environment unchanged), visible_names (nothing bound only under a Not is visible), "
+            "repeat_consistent + astEq_sound = repeat_structurally_equal (every occurrence of a repeated name saw a subtree with "
+            "the same normal form as the one stored value), spellings_agree (desugaring name / name@node into (Binding ...) changes "
+            "neither Pattern.Bindings nor any match result), parse_wfIdx (parsed patterns with <= 64 names carry consistent "
+            "indices below 64) and no_panic. Explored, not proved: that the model is the code - checked on every run by running "
+            "the real parser and matcher in-process on generated pattern/snippet pairs (both spellings, up to 66 names, every "
+            "go/ast node kind for repeated names) and comparing parse status, pattern structure, wfIdx of the real indices, result "
+            "and State with the model run on the real parser's output; the specification is the oracle on every real result.",
+    "note": "Trusted: Lean kernel (axioms propext/Classical.choice/Quot.sound), compiled c09driver incl. its pattern-text lexer, "
+            "harness/cmd/c09match + c09ser (reflection dump of ast and pattern nodes), go/parser. Outside the model: Symbol, "
+            "Object, Builtin, IntegerLiteral, TrulyConstantExpression, Matcher.TypesInfo (type-info nodes), lexer.go.",
+    "design_ref": "DESIGN.md section 5, C09; section 6 rows 9-11; notes/C09.md",
 }
